@@ -673,3 +673,54 @@ def ctrl_malformed_campaign(ctx, n, use_msan=True):
         ctx.note("ctrl_malformed_campaign: %s; uninitialised reads are looked for by the stale-stack differential only"
                  % ("the MSan build is used in the thorough tier only" if not use_msan else "no MSan build (clang missing or the harness does not build with it)"))
     return [(k, w) for k in sorted(found) for w in found[k]]
+
+
+# ---------------------------------------------------------------- SETFH composer against the specification (used by C05 and C20)
+
+def arfcn_khz(a):
+    """(downlink, uplink) in kHz of an ARFCN (3GPP TS 45.005 table 2), None where this oracle does not speak (other bands)"""
+    pcs = bool(a & 0x8000)
+    n = a & 0x3ff
+    if a & 0x4000 or (a & ~0x83ff):
+        return None
+    if pcs:
+        if 512 <= n <= 810:
+            ul = 1850200 + 200 * (n - 512)
+            return ul + 80000, ul
+        return None
+    if 0 <= n <= 124:
+        ul = 890000 + 200 * n
+        return ul + 45000, ul
+    if 955 <= n <= 1023:
+        ul = 890000 + 200 * (n - 1024)
+        return ul + 45000, ul
+    if 512 <= n <= 885:
+        ul = 1710200 + 200 * (n - 512)
+        return ul + 95000, ul
+    return None
+
+
+def setfh_spec_check(ctx, hsn, maio, chans, keyp, extra=None):
+    """trxcon's SETFH composer on a hopping list (ARFCNs in hopping order): the command carries EXACTLY that list (every channel,
+    in order, as 'rx tx' in kHz with rx = downlink) behind HSN and MAIO, or trxcon refuses and sends nothing; never a crash / sanitizer stop"""
+    out = c_ctrl_cmds(("setfreq_h1", hsn, maio, list(chans)))
+    case = dict(hsn=hsn, maio=maio, channels=list(chans), **(extra or {}))
+    if out.get("crash"):
+        ctx.oracle_fail("trxcon's SETFH composer crashed (sanitizer stop) on a hopping list of %d channels" % len(chans), dict(case, out=str(out)[:400]), key=keyp + "-setfh-memory")
+        return "crash"
+    fr = [arfcn_khz(a) for a in chans]
+    if any(f is None for f in fr):
+        return "skipped"
+    if out.get("rc") not in (0, "OK"):
+        if out["queue"]:
+            ctx.oracle_fail("trxcon refused a SETFH but queued a command all the same", dict(case, rc=out.get("rc")), key=keyp + "-setfh-refused-but-sent")
+        return "refused"
+    want = "CMD SETFH %d %d %s" % (hsn, maio, " ".join("%d %d" % f for f in fr))
+    got = [t.rstrip(b"\0").decode("latin-1").rstrip(" ") for _, t in out["queue"]]
+    if got != [want]:
+        first = next((i for i, (a, b) in enumerate(zip(got[0].split(" "), want.split(" "))) if a != b), None) if got else None
+        ctx.oracle_fail("the SETFH command trxcon composes does not carry exactly the hopping list it was given (%d channels)" % len(chans),
+                        dict(case, first_differing_token=first, got_tokens=len(got[0].split(" ")) if got else 0, want_tokens=len(want.split(" "))),
+                        key=keyp + "-setfh-list", expected=want[-60:], observed=(got[0][-60:] if got else None))
+        return "wrong"
+    return "sent"
